@@ -68,6 +68,10 @@ pub(super) enum Action {
 
     /// Generic action with no specialized dependencies on access.
     Opaque,
+
+    /// Generic action that never blocks (e.g. `try_lock`). A thread about to
+    /// perform it must not be disabled by the state of the object.
+    NonBlocking,
 }
 
 macro_rules! objects {
